@@ -205,6 +205,174 @@ func runC09(c *eng.Ctx) {
 	// ---- R4
 	r4 := c.Rule("C09.R4", "B+D:provenance", "Hook.Run writes ConvertBindingContextList(h.Config.Version, UpdateSnapshots(contexts)).Json(); the list has one rendered element per context, in order", 4)
 	runC09R4(c, r4)
+
+	// ---- R7
+	r7 := c.Rule("C09.R7", "H:nil-after-strip + F:sibling agreement", "the renderers dereference ObjectAndFilterResult.Object only under a presence test, or only for a config version whose converter always keeps full objects; every converter sets the monitor's KeepFullObjectsInMemory explicitly", 4)
+	runC09R7(c, r7)
+}
+
+// runC09R7: RemoveFullObject sets Object to nil when keepFullObjectsInMemory is false. A renderer (binding_context
+// package, ObjectAndFilterResult methods, the snapshot sort) that calls a method on Object without a test of
+// `Object != nil` / `!Metadata.RemoveObject` panics for such bindings - unless the renderer serves one config version
+// only (MapV0 <-> HookConfigV0) and that version's converter sets KeepFullObjectsInMemory = true on every path.
+func runC09R7(c *eng.Ctx, r *eng.RuleCtx) {
+	p := c.P
+	objFld := p.Field(pkgKemT, "ObjectAndFilterResult", "Object")
+	monKeep := p.Field(pkgKem, "MonitorConfig", "KeepFullObjectsInMemory")
+	if objFld == nil || monKeep == nil {
+		r.Unknown("anchor:ObjectAndFilterResult.Object / MonitorConfig.KeepFullObjectsInMemory", token.NoPos, "field not found")
+		return
+	}
+	// converters: which of them set the monitor flag, and to what
+	type conv struct {
+		key     string
+		always  bool // the flag is stored on every path to the append of the binding
+		allTrue bool // every store is the constant true
+	}
+	convs := map[string]*conv{}
+	for ver, key := range map[string]string{"v0": pkgCfg + ".(*HookConfigV0).ConvertAndCheck", "v1": pkgCfg + ".(*HookConfigV1).ConvertAndCheck"} {
+		f := r.NeedFunc(key)
+		if f == nil {
+			continue
+		}
+		info := f.Pkg.TypesInfo
+		g := p.GraphOf(f)
+		eff := p.Field(pkgCfg, "HookConfig", "OnKubernetesEvents")
+		cv := &conv{key: key, allTrue: true}
+		isStore := func(n *eng.GNode) bool {
+			as, ok := n.Node.(*ast.AssignStmt)
+			if !ok {
+				return false
+			}
+			for _, l := range as.Lhs {
+				if eng.IsField(info, l, monKeep) {
+					return true
+				}
+			}
+			return false
+		}
+		nStores := 0
+		for _, n := range g.Nodes {
+			if !isStore(n) {
+				continue
+			}
+			nStores++
+			as := n.Node.(*ast.AssignStmt)
+			if len(as.Lhs) != len(as.Rhs) {
+				cv.allTrue = false
+				continue
+			}
+			for i, l := range as.Lhs {
+				if eng.IsField(info, l, monKeep) {
+					if b, isC := constBool(info, as.Rhs[i]); !isC || !b {
+						cv.allTrue = false
+					}
+				}
+			}
+		}
+		if nStores == 0 {
+			cv.allTrue = false
+		}
+		// every append to the effective list is preceded by a store (within the iteration that appends)
+		cv.always = nStores > 0
+		for _, n := range g.Nodes {
+			as, ok := n.Node.(*ast.AssignStmt)
+			if !ok || len(as.Lhs) != 1 || !eng.IsField(info, as.Lhs[0], eff) || builtinCall(info, as.Rhs[0], "append") == nil {
+				continue
+			}
+			loop := eng.LoopOf(f.Decl.Body, as.Pos())
+			if loop == nil {
+				cv.always = false
+				continue
+			}
+			entry := loopBodyEntryOf(g, loop)
+			if entry == nil {
+				cv.always = false
+				continue
+			}
+			reach := g.Reach(eng.Query{From: []*eng.GNode{entry}, AvoidNode: isStore})
+			if reach[n] {
+				cv.always = false
+			}
+		}
+		convs[ver] = cv
+		r.Check(cv.always, key+" sets Monitor.KeepFullObjectsInMemory", f.Decl.Pos(),
+			"the converter decides explicitly whether the monitor keeps full objects for every binding it creates",
+			"a kubernetes binding of config version "+ver+" is created without setting Monitor.KeepFullObjectsInMemory: the zero value strips every object, which the "+ver+" renderer may not expect")
+	}
+	// dereferences in the renderers
+	scope := []*eng.Func{}
+	for _, f := range funcsOfPkg(p, pkgBctx) {
+		scope = append(scope, f)
+	}
+	for _, f := range funcsOfPkg(p, pkgKemT) {
+		if f.Obj == nil {
+			continue
+		}
+		if rn := eng.RecvNamed(f.Obj); rn != nil && (rn.Obj().Name() == "ObjectAndFilterResult" || rn.Obj().Name() == "ByNamespaceAndName") {
+			scope = append(scope, f)
+		}
+	}
+	versionOf := map[string]string{pkgBctx + ".(BindingContext).MapV0": "v0"}
+	nsites := 0
+	for _, f := range scope {
+		if f.Decl.Body == nil {
+			continue
+		}
+		c.Touch(f)
+		info := f.Pkg.TypesInfo
+		g := p.GraphOf(f)
+		presence := g.FactEdge(func(fc eng.Fact) bool {
+			if fc.Y != nil {
+				return false
+			}
+			// X.Object != nil
+			if x, y, eq, ok := eng.EqAtom(fc); ok && !eq {
+				if (eng.IsField(info, x, objFld) && eng.IsNil(info, y)) || (eng.IsField(info, y, objFld) && eng.IsNil(info, x)) {
+					return true
+				}
+			}
+			// !X.Metadata.RemoveObject
+			if !fc.Pos {
+				if s, ok := ast.Unparen(fc.X).(*ast.SelectorExpr); ok && s.Sel.Name == "RemoveObject" {
+					return true
+				}
+			}
+			return false
+		})
+		seen := map[*eng.GNode]bool{}
+		eng.InspectNoLit(f.Decl.Body, func(n ast.Node) bool {
+			outer, ok := n.(*ast.SelectorExpr)
+			if !ok || !eng.IsField(info, outer.X, objFld) {
+				return true
+			}
+			// outer is <expr>.Object.<member>: a dereference of the pointer
+			node := g.NodeOf(outer)
+			if node == nil || seen[node] {
+				return true
+			}
+			seen[node] = true
+			nsites++
+			construct := fmt.Sprintf("%s dereferences Object at `%s`", f.Key, eng.Short(p.Fset, outer))
+			if g.OnlyVia(node, nil, presence) {
+				r.Ok(construct, outer.Pos(), "under a presence test of the object")
+				return true
+			}
+			if ver, isV := versionOf[f.Key]; isV {
+				if cv := convs[ver]; cv != nil && cv.always && cv.allTrue {
+					r.Ok(construct, outer.Pos(), "renderer of config version "+ver+" only, whose converter always keeps full objects")
+					return true
+				}
+				r.Bad(construct, outer.Pos(), "the "+ver+" renderer calls a method on Object without a presence test, but the "+ver+" converter does not always set Monitor.KeepFullObjectsInMemory = true: the informer strips the object (RemoveFullObject sets it to nil) and rendering the binding context panics with a nil pointer dereference")
+				return true
+			}
+			r.Bad(construct, outer.Pos(), "a renderer calls a method on Object without testing that the object is present: for bindings with keepFullObjectsInMemory: false the object is nil and rendering panics")
+			return true
+		})
+	}
+	if nsites == 0 {
+		r.Ok("no dereference of Object in the renderers", token.NoPos, "nothing to guard")
+	}
 }
 
 type keyExpect struct {
